@@ -420,10 +420,17 @@ def run_shards(ctx, imports, cases):
     """Evaluate all cases in Coq.  Returns (failing_indices, shard_reports)."""
     from concurrent.futures import ThreadPoolExecutor
     pid = ctx.pid
-    for old in glob.glob(os.path.join(GEN, "cases_%s_*" % pid)) + glob.glob(os.path.join(GEN, ".cases_%s_*" % pid)):
+    # one directory per run, so that concurrent runs of the same property (e.g. against scratch copies) never
+    # clobber each other's shards; the previous run's directory of THIS process id cannot exist
+    GENRUN = os.path.join(GEN, "run_%s_%d" % (pid, os.getpid()))
+    os.makedirs(GENRUN, exist_ok=True)
+    for old in glob.glob(os.path.join(GEN, "run_%s_*" % pid)):
+        # remove stale directories of dead processes
         try:
-            os.remove(old)
-        except OSError:
+            opid = int(old.rsplit("_", 1)[1])
+            if opid != os.getpid() and not os.path.exists("/proc/%d" % opid):
+                shutil.rmtree(old, ignore_errors=True)
+        except ValueError:
             pass
     exact = [i for i, c in enumerate(cases) if c.kind != "ENCLOSURE"]
     encl = [i for i, c in enumerate(cases) if c.kind == "ENCLOSURE"]
@@ -437,7 +444,7 @@ def run_shards(ctx, imports, cases):
 
     def work(jn):
         j, (kind, idxs) = jn
-        path = os.path.join(GEN, "cases_%s_%03d.v" % (pid, j))
+        path = os.path.join(GENRUN, "cases_%s_%03d.v" % (pid, j))
         t0 = time.time()
         bad = []
         err = None
@@ -450,7 +457,7 @@ def run_shards(ctx, imports, cases):
                 # compiling each case alone (slow path; only on breakage)
                 err = out[-1500:]
                 for i in idxs:
-                    p1 = os.path.join(GEN, "cases_%s_%03d_one.v" % (pid, j))
+                    p1 = os.path.join(GENRUN, "cases_%s_%03d_one.v" % (pid, j))
                     _write_exact_shard(p1, imports, cases, [i])
                     rc1, out1 = _run_coqc_file(p1, timeout=120)
                     fl1 = _parse_fail_list(out1) if rc1 == 0 else None
@@ -497,6 +504,8 @@ def run_shards(ctx, imports, cases):
         for rep in ex.map(work, list(enumerate(jobs))):
             reports.append(rep)
             failing += rep["failing"]
+    if not failing and not any(r["error"] for r in reports):
+        shutil.rmtree(GENRUN, ignore_errors=True)      # kept for inspection only when something disagreed
     return sorted(failing), reports
 
 
